@@ -440,8 +440,13 @@ def contractible_pair(sr, rng, sym, fermionic, na=None, nb=None, ncon=None, maxn
     if fermionic and la is None:
         la, lb = rng.sample(range(1, 1000), 2)
     p_hist = kw.pop("p_hist", 0.0)
+    p_mixclass = kw.pop("p_mixclass", 0.0)
+    kind_b = kind
+    if p_mixclass and sym != "Z4" and rng.random() < p_mixclass:
+        # a fixed-symmetry class and the generic class (same symmetry) in one call
+        kind_b = rng.choice([k for k in ("static", "generic_str", "generic_obj") if (k == "static") != (kind == "static")])
     a = make_array(sr, rng, sym, ia, fermionic=fermionic, values=values, kind=kind, label=la, **kw)
-    b = make_array(sr, rng, sym, ib, fermionic=fermionic, values=values, kind=kind, label=lb, **kw)
+    b = make_array(sr, rng, sym, ib, fermionic=fermionic, values=values, kind=kind_b, label=lb, **kw)
     if p_hist and rng.random() < p_hist:
         a, _ = identity_history(sr, rng, a)
     if p_hist and rng.random() < p_hist:
